@@ -327,7 +327,10 @@ func genC17(g *Gen) {
 	}
 	// (2) exhaustive small concurrent scope: 2 (thorough: also 3) callers, each over key {0,1} x start {0,3,45}
 	//     x latency {0,5,40} x outcome {v,e}; followed by a second wave of two probing callers.
-	type cfg struct{ key, off, lat int; out string }
+	type cfg struct {
+		key, off, lat int
+		out           string
+	}
 	var cfgs []cfg
 	for _, k := range []int{0, 1} {
 		for _, off := range []int{0, 3, 45} {
